@@ -27,7 +27,7 @@ func init() {
 		Assumptions: []string{"the model (packages model and ref) is the trusted statement of MongoDB semantics; no MongoDB server is available", "error classes other than error-or-success are not asserted (uniqueness class: C07)", "CreateCollection on an existing collection and update validation on zero matching documents are not asserted"},
 		Batches:     func(tier string) int { return 16 },
 		Require: func(tier string) map[string]int64 {
-			return map[string]int64{"calls_compared": 10000, "state_comparisons": 10000, "failed_calls_agreed": 1500, "upserts": 300, "multi_document_writes": 500, "bulk_writes": 300, "find_and_modify": 500, "index_calls": 800, "docs_compared": 50000}
+			return map[string]int64{"calls_compared": 10000, "state_comparisons": 10000, "failed_calls_agreed": 1500, "upserts": 300, "multi_document_writes": 500, "bulk_writes": 300, "find_and_modify": 500, "index_calls": 800, "docs_compared": 50000, "projected_results_asserted": 500}
 		},
 		Run: runC01,
 	})
